@@ -52,7 +52,7 @@ func genC13(t *rapid.T) c13Case {
 		case "nats":
 			s.Behaviour = rapid.SampledFrom([]string{"silent", "late", "otherop", "noresponder", "stalled-link", "stalled-link-oneway", "slow-link"}).Draw(t, "b")
 		case "http":
-			s.Behaviour = rapid.SampledFrom([]string{"silent", "late", "drop-then-silent"}).Draw(t, "b")
+			s.Behaviour = rapid.SampledFrom([]string{"silent", "late", "drop-then-silent", "stall-body", "stall-body-partial"}).Draw(t, "b")
 		}
 		s.LateMs = rapid.IntRange(1, 200).Draw(t, "late")
 		if s.Behaviour == "slow-link" || s.Behaviour == "drop-then-silent" {
@@ -390,6 +390,29 @@ func execC13Sub(s c13Sub) *ev.Failure {
 				return ev.Failf("no-error", "%s: Request returned no error although the peer never answered", what)
 			}
 			return nil
+		}
+		if strings.HasPrefix(s.Behaviour, "stall-body") {
+			// status and headers arrive at once, (part of) the body never does
+			release := make(chan struct{})
+			ts := httptest.NewServer(http.HandlerFunc(func(w http.ResponseWriter, r *http.Request) {
+				w.Header().Set("Content-Length", "4000")
+				w.WriteHeader(200)
+				if s.Behaviour == "stall-body-partial" {
+					w.Write([]byte("AAAAAAAAAAAAAAAA"))
+				}
+				if fl, ok := w.(http.Flusher); ok {
+					fl.Flush()
+				}
+				select {
+				case <-release:
+				case <-r.Context().Done():
+				case <-time.After(8 * time.Second):
+				}
+			}))
+			defer ts.Close()
+			defer close(release)
+			tr := frugal.NewFHTTPTransportBuilder(&http.Client{}, ts.URL).Build()
+			return call(func() error { _, err := tr.Request(ctx, req); return err }, true)
 		}
 		release := make(chan struct{})
 		ts := httptest.NewServer(http.HandlerFunc(func(w http.ResponseWriter, r *http.Request) {
